@@ -33,6 +33,12 @@ class RecApp(Application):
         b = self.behaviour(m) if callable(self.behaviour) else self.behaviour
         if b == "answer":
             self.submit(m)
+        elif b == "answer_norc":
+            # an answer lacking Result-Code, sent the way a plain handler does it: nothing caught
+            ans = self.build_answer(m, None)
+            self.h.log("app_answer_submit", app=self.tag, hbh=m.header.hop_by_hop_identifier,
+                       e2e=m.header.end_to_end_identifier)
+            self.send_answer(ans)
         elif b == "defer":
             self.deferred.append(m)
         elif b == "raise":
